@@ -1717,8 +1717,11 @@ def h_store(I, fr, ins):
     v = I.val(fr, ins['y'])
     if a is None:
         raise GoPanic('nil-deref', ins.get('pos', ''))
-    if ctx.opts.get('trace_shared') and isinstance(a, Ptr) and a.path and isinstance(ctx.force(v) if not isinstance(v, Lazy) else None, MapRef):
-        ctx.event('acc', 'w', ('field', a.cell, a.path), ins.get('pos', ''))
+    if ctx.opts.get('trace_shared') and isinstance(a, Ptr):
+        if a.path and isinstance(ctx.force(v) if not isinstance(v, Lazy) else None, MapRef):
+            ctx.event('acc', 'w', ('field', a.cell, a.path), ins.get('pos', ''))
+        if a.cell in ctx.ghost.get('shared_cells', ()):
+            ctx.event('acc', 'w', ('cell', a.cell), ins.get('pos', ''))
     ctx.store_(a, v)
 
 
@@ -1769,8 +1772,11 @@ def h_unop(I, fr, ins):
             raise GoPanic('nil-deref', ins.get('pos', ''))
         if not isinstance(p, Ptr):
             raise Inconclusive('load through %r at %s' % (p, ins.get('pos')))
-        if ctx.opts.get('trace_shared') and p.path and I.prog.kind(ins['t']) == 'map':
-            ctx.event('acc', 'r', ('field', p.cell, p.path), ins.get('pos', ''))
+        if ctx.opts.get('trace_shared'):
+            if p.path and I.prog.kind(ins['t']) == 'map':
+                ctx.event('acc', 'r', ('field', p.cell, p.path), ins.get('pos', ''))
+            if p.cell in ctx.ghost.get('shared_cells', ()):
+                ctx.event('acc', 'r', ('cell', p.cell), ins.get('pos', ''))
         fr.regs[ins['r']] = ctx.load(p)
         return
     if o == '!':
